@@ -19,20 +19,26 @@ def restore():
     sh('git checkout -- . && git clean -fdq src')
 assert sh('git status --porcelain --untracked-files=no').stdout.strip() == '', 'repo not clean'
 notes = open(os.path.join(d, 'notes.md')).read()
-feat = '--features jit' if re.search(r'features jit', notes) else ''
 conf = {}
 try:
-    assert sh('git apply %s/demo.diff' % d).returncode == 0, 'demo.diff does not apply'
-    r = sh('cargo test --offline %s 2>&1 | grep -E "^test result"' % feat).stdout
-    conf['demo_only'] = r.strip()
-    assert sh('git apply %s/patch.diff' % d).returncode == 0, 'patch.diff does not apply on demo'
-    r = sh('cargo test --offline %s 2>&1 | grep -E "^test result"' % feat).stdout
-    conf['demo_plus_patch'] = r.strip()
+    # the demonstration is tried with the default features first, then with the jit feature (jit-only behaviour)
+    for feat in ('', '--features jit'):
+        restore()
+        assert sh('git apply %s/demo.diff' % d).returncode == 0, 'demo.diff does not apply'
+        r0 = sh('cargo test --offline %s 2>&1' % feat)
+        conf['demo_only'] = ' '.join(re.findall(r'^test result.*$', r0.stdout, re.M)) or ('exit %d' % r0.returncode)
+        assert sh('git apply %s/patch.diff' % d).returncode == 0, 'patch.diff does not apply on demo'
+        r1 = sh('cargo test --offline %s 2>&1' % feat)
+        conf['demo_plus_patch'] = ' '.join(re.findall(r'^test result.*$', r1.stdout, re.M)) or ('exit %d (test binary aborted)' % r1.returncode)
+        conf['demo_exit'] = [r0.returncode, r1.returncode]
+        conf['features'] = feat or 'default'
+        if r0.returncode == 0 and r1.returncode != 0:
+            break
     restore()
     assert sh('git apply %s/patch.diff' % d).returncode == 0
     r = sh('cargo test --offline 2>&1 | grep -E "^test result"').stdout
     conf['patch_only_suite'] = r.strip()
-    ok = ' 0 failed' in conf['demo_only'] and re.search(r' [1-9]\d* failed', conf['demo_plus_patch']) is not None and '98 passed; 0 failed' in conf['patch_only_suite']
+    ok = conf['demo_exit'] [0] == 0 and conf['demo_exit'][1] != 0 and '98 passed; 0 failed' in conf['patch_only_suite']
     conf['confirmed'] = bool(ok)
     p = subprocess.run(['./check', prop, '--tier', tier], cwd=ROOT, capture_output=True, text=True)
     out = p.stdout
